@@ -36,7 +36,7 @@ def snapshot_dir(root, with_mtime=True):
             elif stat.S_ISCHR(st.st_mode) or stat.S_ISBLK(st.st_mode):
                 extra = st.st_rdev
             try:
-                xa = tuple(sorted((k, os.getxattr(p, k, follow_symlinks=False)) for k in os.listxattr(p, follow_symlinks=False)))
+                xa = tuple(sorted((os.fsencode(k), os.getxattr(p, k, follow_symlinks=False)) for k in os.listxattr(p, follow_symlinks=False)))
             except OSError:
                 xa = ()
             out[rel] = (kind, stat.S_IMODE(st.st_mode), st.st_uid, st.st_gid,
@@ -114,7 +114,7 @@ def build_case(bdir, seed, kind, profile, casedir):
             if r.randrange(3) == 0:
                 defaults = {"uid": r.choice([0, 7, 1000]), "gid": r.choice([0, 9]), "mode": r.choice([0o755, 0o700]),
                             "mtime": r.choice([0, 5, 1500000000])}
-                opts += ["-d", "uid=%d,gid=%d,mode=%o,mtime=%d" % (defaults["uid"], defaults["gid"], defaults["mode"], defaults["mtime"])]
+                opts += ["-d", "uid=%d,gid=%d,mode=0%o,mtime=%d" % (defaults["uid"], defaults["gid"], defaults["mode"], defaults["mtime"])]
             with_x = False
             if prof.get("xattrs"):
                 treegen.emit_xattr_file(ents, casedir)
